@@ -1048,7 +1048,7 @@ def run(ctx, out):
                          f"one packet, every split of its frame (thorough: two packets): {out.cases - c0} cases in {time.time() - t0:.1f}s")
         # 3. random
         t1 = time.time()
-        n_raw, n_ws = ctx.n(600, 12000), ctx.n(300, 6000)
+        n_raw, n_ws = ctx.n(600, 4000), ctx.n(300, 1200)
         run_many(pool, [gen_random(rng, "raw", big=not ctx.quick) for _ in range(n_raw)], out, "random_raw", 100)
         run_many(pool, [gen_random(rng, "ws", big=not ctx.quick) for _ in range(n_ws)], out, "random_ws", 50)
         if not ctx.quick:
